@@ -332,6 +332,36 @@ theorem resolveRef_injective_local (root : List Str) (r r' p : Str)
 example : resolveRef [] (L "#/definitions/Pet") = .ok (L "#/definitions/Pet") ∧
     resolveRef [] (L "#/definitions/pet") = .ok (L "#/definitions/pet") := by decide
 
+/-! ### which references are `$id` / anchor references (`ID_PATTERN`) -/
+
+/-- The rule that decides whether a `$ref` is looked up in the `$id` registry is, in the source as it is now,
+the reviewed one: `reference.ID_PATTERN` has the pattern text `^#[^/].*`, is compiled with `re.UNICODE` only,
+and the name is read in exactly one place, `ID_PATTERN.match(joined_path)` inside `ModelResolver.resolve_ref`
+(all three regenerated from /repo on every run). `isIdRef` — `#`, one character other than `/`, anything — is the
+reading of these values the model implements; it is compared with the real `ID_PATTERN.match` on every run. Any
+edit of the pattern, of its flags, or a new / different use of it breaks this obligation (a narrower pattern
+makes references to anchors outside it land on a phantom path, a wider one captures JSON pointers). -/
+theorem id_pattern_is_reviewed :
+    idPattern = reviewedIdPattern ∧ idPatternFlags = reviewedIdPatternFlags ∧
+      idPatternUses = reviewedIdPatternUses := by decide
+
+/-- In the model a reference that begins with `#` goes to the id registry (which the model keeps empty, so the
+step raises like the `KeyError` of the real class) exactly when it is an id reference in the sense of
+`isIdRef`; `#` alone and `#/…` never do, whatever the current root. -/
+theorem hash_ref_is_id_lookup_iff (root : List Str) (t : Str) :
+    resolveRef root ('#' :: t) = .raised ↔ isIdRef ('#' :: t) = true :=
+  resolveRef_hash_raised_iff root t
+
+/-- Only references that begin with `#` are id references: a file reference `other.json#anchor` is never looked
+up in the id registry (anchor references are same-document only). -/
+theorem id_ref_begins_with_hash (r : Str) (h : isIdRef r = true) : r.head? = some '#' :=
+  isIdRef_head h
+
+example : isIdRef (L "#street-address") = true ∧ isIdRef (L "##") = true ∧ isIdRef (L "#1/x") = true ∧
+    isIdRef (L "#a") = true ∧ isIdRef (L "#") = false ∧ isIdRef (L "#/definitions/Pet") = false ∧
+    isIdRef (L "a.json#b") = false ∧ isIdRef [] = false ∧
+    resolveRef [] (L "#street-address") = .raised ∧ resolveRef [] (L "#") = .ok (L "#") := by decide
+
 /-! ### references into parts of the document that are not parsed yet (`reserved_refs` work list) -/
 
 section Worklist
